@@ -162,7 +162,7 @@ theorem requestTerminate_act (s : EState) (k r : String) : ActKeep s (requestTer
   · exact refuse_act s k
   · obtain ⟨hp, hi⟩ := termPrep_act s k r
     split
-    · exact hp.trans (refuse_act _ _)
+    · exact refuse_act _ _
     · rename_i s' hs
       have h1 : ActKeep (termPrep s k r) s' := setState_act hs (Or.inr hi)
       have hi' : s'.interrupted = true := (setState_keep hs).2.1.trans hi
